@@ -870,6 +870,35 @@ impl Engine for C14 {
             }
         }
 
+        // ================= a multi-release copy: one class of the jar a second time, under `META-INF/versions/9/<name>.class`
+        // (an entry whose name is not `<class name>.class`). Whatever name the copy comes back under: no other entry may
+        // change or disappear because of it, and the copy itself has to come back (missed seeded change C14-16: result
+        // entries named after the class they hold, so that the copy and the base class land on one name)
+        if let (Some(t0), true) = (&t0_obs, p.map_order % 10 == 3) {
+            let class_entries: Vec<&(String, EntryData)> = entries.iter().filter(|(n, d)| n.ends_with(".class") && matches!(d, EntryData::File(_))).collect();
+            if !class_entries.is_empty() {
+                let (cn, cd) = class_entries[(p.map_order as usize / 10) % class_entries.len()];
+                let mut with_copy = entries.clone();
+                with_copy.push((format!("META-INF/versions/9/{cn}"), cd.clone()));
+                st.probe("multi_release_copy");
+                let sj2 = SimJar::new(crate::simjar::build_jar(&with_copy, p.deflate), &IoPlan::plain());
+                match call_nest_jar(&sj2, &nests) {
+                    Err(pm) => out.push(Violation::new("T0", "panic", format!("nest_jar:{}", panic_path(&pm)), pm)),
+                    Ok(Err(e)) => out.push(Violation::new("T0", "refused-wellformed", "nest_jar.multi-release-copy", format!("{e:#}"))),
+                    Ok(Ok(res)) => {
+                        if let Ok(o2) = observe(&res) {
+                            let lost: Vec<&String> = t0.iter().filter(|(k, v)| o2.get(*k) != Some(v)).map(|x| x.0).collect();
+                            if let Some(k) = lost.first() {
+                                out.push(Violation::new("T0", "semantic-mismatch", "jar.multi-release-copy.other-entry-changed", format!("with a copy of {cn} under META-INF/versions/9/ in the jar, entry {k} of the result is missing or different")));
+                            } else if o2.len() != t0.len() + 1 {
+                                out.push(Violation::new("T0", "semantic-mismatch", "jar.multi-release-copy.entries.len", format!("{} entries with the copy, {} without: the copy did not come back as an entry of its own", o2.len(), t0.len())));
+                            }
+                        }
+                    }
+                }
+            }
+        }
+
         // ================= the entry-level seam: the same entries behind a LazyJar
         if let Some(lp) = &p.lazy {
             let lj = LazyJar::new(entries.clone(), lp);
